@@ -645,6 +645,31 @@ fn minimise(ctx: &Ctx, spec: &Value, rec: &Value, finding: &Finding) -> (Value, 
     };
     let small = simcore::ddmin(&ops, |cand| try_ops(cand, &mut best, &mut budget));
     let _ = small;
+    // texts: drop lines of every document text while the same violation persists
+    let n_ops_min = best.0["ops"].as_array().map(|a| a.len()).unwrap_or(0);
+    for oi in 0..n_ops_min {
+        let cur_ops: Vec<Value> = best.0["ops"].as_array().cloned().unwrap_or_default();
+        let Some(text) = cur_ops[oi]["text"].as_str().map(|s| s.to_string()) else { continue };
+        let lines: Vec<String> = text.split('\n').map(|l| l.to_string()).collect();
+        if lines.len() < 2 {
+            continue;
+        }
+        let mut text_budget = 90usize;
+        let shrunk = simcore::ddmin(&lines, |cand| {
+            if text_budget == 0 {
+                return false;
+            }
+            text_budget -= 1;
+            let mut ops2 = cur_ops.clone();
+            ops2[oi]["text"] = json!(cand.join("\n"));
+            if let Some(m) = ops2[oi].as_object_mut() {
+                m.remove("changes");
+            }
+            let mut b2 = budget.max(1);
+            try_ops(&ops2, &mut best, &mut b2)
+        });
+        let _ = shrunk;
+    }
     // schedule simplification: prefer "the deciding thread continues" at every decision
     let (mut spec_b, mut rec_b, mut f_b) = best;
     let mut choices: Vec<u64> = spec_b["sched"]["choices"].as_array().map(|a| a.iter().map(|v| v.as_u64().unwrap_or(0)).collect()).unwrap_or_default();
